@@ -6,4 +6,4 @@ Extraction "model.ml" drv_b2n drv_n2b drv_z_of_n drv_n_of_z drv_nat_of_n drv_n_o
   compact_encode compact_decode has_type wf_ty multi_map min_size
   spec_encode encode run_decode decode_res decode_cost current pinned ideal field_order tags_distinct
   s_bam s_bah s_txm s_body s_ghs s_gmsg s_warp s_lreq s_lresp s_header
-  dec_body breq_decode bresp_decode bytes_to_hash c33_prop alloc_budget with_bytes bytes_alloc.
+  dec_body breq_decode bresp_decode bresp_view pb_opt pb_just bytes_to_hash c33_prop alloc_budget with_bytes bytes_alloc.
